@@ -24,7 +24,7 @@ def main():
     scratch = tempfile.mkdtemp(prefix='mut-%s-' % prop, dir='/tmp')
     dst = os.path.join(scratch, 'repo')
     try:
-        shutil.copytree('/repo', dst, ignore=shutil.ignore_patterns('.git', '__pycache__', '*.pyc'))
+        shutil.copytree('/repo', dst, ignore=shutil.ignore_patterns('.git', '__pycache__', '*.pyc', '.hypothesis', '.benchmarks'))
         label = ' '.join(a.strip()[:50].replace('\n', ' ') for a in args[:3])
         if args[0] == '--patch':
             r = subprocess.run(['patch', '-p1', '-d', dst, '-i', os.path.abspath(args[1])], capture_output=True, text=True)
